@@ -25,7 +25,9 @@ def check(run, prog, tier):
         "followed by polynomial identities for start, contiguity across every feasible pair of "
         "cases, end point and block sizes, for all process counts, ranks and ranges; def-use of "
         "'start'; ordering/pairing of parallel region, distributed loop, accumulation and "
-        "sum-reduction at the call sites. MPI itself is trusted.")
+        "sum-reduction at the call sites; an independent concrete cross-check interprets _calculate_ranges and "
+        "its list/array wrappers (qv/feval.py) for every process count up to 8 (thorough: 16), lengths up to 20 "
+        "(50), three starts and three ranks. MPI itself is trusted.")
     run.trusted_base = ["Python // and % satisfy stop-start = q*size + rem with 0 <= rem < size",
                         "MPI allreduce(sum) adds the per-process arrays"]
     run.rule("C20-A", "block boundaries depend on the start of the range", minimum=3)
@@ -35,7 +37,70 @@ def check(run, prog, tier):
     rule_A(run, prog, f)
     rule_B(run, prog, f)
     rule_C(run, prog)
+    run.rule("C20-D", "concrete cross-check: the blocks of every rank partition the range (finite evaluation)", minimum=3)
+    rule_D(run, prog, f, tier)
     run.extra["exhaustive"] = True
+
+
+def rule_D(run, prog, f, tier):
+    """_calculate_ranges and its list/array wrappers are interpreted (qv/feval.py) for every process
+    count, rank, start and length up to a bound; the blocks must be contiguous from start to stop, in
+    rank order, with sizes differing by at most one, and the value returned must be the block of the
+    calling rank.  Independent of the symbolic summary of rule B (different engine, same source)."""
+    from .. import feval
+    from ..feval import Stub, Vec
+    rid = "C20-D"
+    maxsize, maxlen = (8, 20) if tier != "thorough" else (16, 50)
+    wrappers = {"_calculate_ranges": None,
+                "_calculate_ranges_list": prog.func(PAR + "_calculate_ranges_list"),
+                "_calculate_ranges_array": prog.func(PAR + "_calculate_ranges_array")}
+    for wname, wf in wrappers.items():
+        bad = []
+        ncfg = 0
+        starts = (-3, 0, 7) if wf is None else (0,)
+        for size in range(1, maxsize + 1):
+            for start in starts:
+                for ln in range(0, maxlen + 1):
+                    stop = start + ln
+                    for rank in sorted({0, size - 1, size // 2}):
+                        ncfg += 1
+                        cfg = Stub("DistributedConfiguration", size=size, rank=rank)
+                        try:
+                            if wf is None:
+                                got = feval.Evaluator().call_function(f.node, {"config": cfg, "start": start, "stop": stop})
+                            else:
+                                arg = list(range(ln)) if "list" in wname else feval.Mat(Vec([0]) for _ in range(ln))
+                                if "array" in wname and ln == 0:
+                                    arg = Stub("ndarray", shape=(0,))
+                                env = {wf.node.args.args[0].arg: cfg, wf.node.args.args[1].arg: arg,
+                                       "_calculate_ranges": lambda c, a, b: feval.Evaluator().call_function(
+                                           f.node, {"config": c, "start": a, "stop": b})}
+                                got = feval.Evaluator().call_function(wf.node, env)
+                        except feval.Unsupported as e:
+                            raise AnalysisError("%s: outside the finite evaluator's vocabulary: %s" % (wname, e))
+                        except feval.Raised as e:
+                            bad.append((size, start, stop, rank, "raises %s" % e))
+                            continue
+                        blocks = [list(b) for b in cfg.attrs.get("ranges", [])]
+                        why = None
+                        if len(blocks) != size:
+                            why = "%d blocks for %d processes" % (len(blocks), size)
+                        elif blocks[0][0] != start or blocks[-1][1] != stop:
+                            why = "blocks span %s..%s" % (blocks[0][0], blocks[-1][1])
+                        elif any(blocks[r][1] != blocks[r + 1][0] for r in range(size - 1)):
+                            why = "blocks are not contiguous: %s" % blocks
+                        elif any(b[1] < b[0] for b in blocks):
+                            why = "negative block: %s" % blocks
+                        elif max(b[1] - b[0] for b in blocks) - min(b[1] - b[0] for b in blocks) > 1:
+                            why = "block sizes differ by more than one: %s" % blocks
+                        elif list(got) != blocks[rank]:
+                            why = "rank %d is handed %s, its block is %s" % (rank, list(got), blocks[rank])
+                        if why:
+                            bad.append((size, start, stop, rank, why))
+        run.obligation(rid, "parallel." + wname, not bad, key="finite:size<=%d,len<=%d" % (maxsize, maxlen),
+                       message="%s does not partition the range on %d of %d configurations; first: size=%s start=%s "
+                               "stop=%s rank=%s: %s" % ((wname, len(bad), ncfg) + (bad[0] if bad else ("",) * 5)),
+                       loc=(wf or f).loc(), sample={"function": wname, "configurations": ncfg})
 
 
 def rule_A(run, prog, f):
